@@ -387,7 +387,7 @@ def finish(prop_id, sel, results, tier, seed, level, trusted, assumptions, expla
                 n_unknown += 1
         if n_unknown and not fails:
             uw = [p["id"] for p in r["props"] if p["status"] == "FAILURE" and "unwind" in p["id"]]
-            undecided.append({"group": r["group"], "reason": "%d properties UNKNOWN (unwinding assertion failed: %s)" % (n_unknown, ", ".join(uw[:4]) or "none listed")})
+            undecided.append({"group": r["group"], "reason": "%d properties with status UNKNOWN/ERROR (solver out of memory, or failed unwinding assertion: %s)" % (n_unknown, ", ".join(uw[:4]) or "none listed")})
             continue
         if n_can == 0 or not canary_ok:
             undecided.append({"group": r["group"], "reason": "vacuity canary %s" % ("missing" if n_can == 0 else "did not fail: harness end unreachable")})
